@@ -102,6 +102,8 @@ def ratio_close(obs, ref, scale=None, *, C: float, u: float, kappa: float = 1.0,
     guards against cancellation (DESIGN 1.4)."""
     import torch
 
+    # values below the storage dtype's normal range are quantised to multiples of its smallest subnormal (tiny * eps)
+    underflow = 8.0 * float(torch.finfo(obs.dtype).tiny) * float(torch.finfo(obs.dtype).eps) if obs.dtype.is_floating_point else 0.0
     obs = obs.detach().to(torch.float64)
     ref = ref.detach().to(torch.float64)
     if obs.shape != ref.shape:
@@ -115,7 +117,7 @@ def ratio_close(obs, ref, scale=None, *, C: float, u: float, kappa: float = 1.0,
     tol = C * u * kappa * (scale + s)
     if extra_abs is not None:
         tol = tol + extra_abs
-    tol = tol.clamp_min(1e-300)
+    tol = (tol + underflow).clamp_min(1e-300)
     return float(((obs - ref).abs() / tol).max())
 
 
